@@ -81,7 +81,7 @@ def run_tlc(module: str, cfg: str | None = None, *, env: dict | None = None, wor
     """Run TLC on spec/<module>.tla with spec/<cfg>.  Returns a parsed TLCResult."""
     ensure_built()
     meta = tempfile.mkdtemp(prefix='verif-tlc-')
-    cmd = ['java', '-Xss64m', f'-Xmx{xmx}', '-XX:+UseParallelGC', '-XX:ParallelGCThreads=4']
+    cmd = ['java', '-Xss64m', f'-Xmx{xmx}', '-XX:+UseParallelGC', '-XX:ParallelGCThreads=4', f'-Djava.io.tmpdir={meta}']    # (TLC's scratch directories go away with meta)
     if dfs_queue:
         cmd.append('-Dtlc2.tool.queue.IStateQueue=StateDeque')
     cmd += ['-cp', f'{CLASSES}:{TLA_JARS}', 'tlc2.TLC', '-metadir', meta, '-noGenerateSpecTE',
